@@ -90,11 +90,11 @@ func groupListCore(n int, reduced bool) {
 	out := buf.String()
 	verifObserve("out", out)
 	want := refGroup(g.name, g.open, g.close, g.separator, g.multi, nulls, texts)
-	verifAssert(out == want, "exactly the non-null items, in order, separated")
+	verifAssert(specSameCode(out, want), "exactly the non-null items, in order, separated")
 	// rendering must not consume or reorder the items: the same list renders the same again
 	buf2 := &bytes.Buffer{}
 	g.render(f, buf2, nil)
-	verifAssert(buf2.String() == want, "the list renders the same a second time")
+	verifAssert(buf2.String() == out, "the list renders the same a second time")
 	var isn bool
 	panicked = verifPanics(func() { isn = g.isNull(f) })
 	verifAssert(!panicked, "null test of a list with nil/null items does not panic")
